@@ -186,11 +186,11 @@ func (i KIndex) encodeN() Opcode {
 	return Opcode(i)
 }
 
-// KIndexFromInt returns a KIndex encoding the given index i, panicking if out
-// of range.
+// KIndexFromInt returns a KIndex encoding the given index i, panicking with a
+// *LimitError if out of range.
 func KIndexFromInt(i int) KIndex {
 	if i < 0 || i > math.MaxUint16 {
-		panic("constant index out of range")
+		panic(newLimitError("too many constants"))
 	}
 	return KIndex(i)
 }
@@ -414,10 +414,10 @@ func (i Index8) encodeM() Opcode {
 }
 
 // Index8FromInt returns an Index8 encoding the given int, which must fit in an
-// uint8.
+// uint8 (it panics with a *LimitError if it doesn't).
 func Index8FromInt(n int) Index8 {
 	if n < 0 || n > math.MaxUint8 {
-		panic("n out of range")
+		panic(newLimitError("index out of range"))
 	}
 	return Index8(n)
 }
